@@ -28,7 +28,27 @@ Proof.
   destruct (write_idem_binary d ks d' fs RA RB W WB US SK XP' CH ID T1) as [d'' [fs' R]].
   exists d', fs, RA, RB, d'', fs'. split; [reflexivity|]. split; [reflexivity|exact R].
 Qed.
-Example example_tough2_bin_idem : idem_bin_hyps true (with_centres (drop_short example_tough2)) (no_mesh example_tough2_order) = true.
+(** ... and of the byte-for-byte part *)
+Definition idem_bin_hyps2 (strict : bool) (d : t2d) (ks : list string) : bool :=
+  let X := bin_state d (reread d ks) in
+  idem_bin_hyps strict d ks && chain_ok X ks (start_state X) && idem_bin_ok X ks.
+Theorem write_fixpoint_binary_checked strict d ks : idem_bin_hyps2 strict d ks = true ->
+  let X := bin_state d (reread d ks) in let Y := bin_state X (reread X ks) in
+  exists RA RB d'' fs' d3 fs'', write_bin d = Ok (RA, RB) /\
+    write_files (mk_wcfg 2 None None) X = Ok (d'', fs') /\ write_files (mk_wcfg 2 None None) Y = Ok (d3, fs'') /\
+    fs'' = fs' /\ write_bin X = Ok (RA, RB) /\ write_bin Y = Ok (RA, RB).
+Proof.
+  unfold idem_bin_hyps2. cbv zeta. intro H. apply andb_prop in H as [H IDX]. apply andb_prop in H as [H CHX].
+  unfold idem_bin_hyps in H. destruct (write_files (mk_wcfg 2 None None) d) as [[d' fs]|] eqn:W; [|discriminate].
+  destruct (write_bin d) as [[RA RB]|] eqn:WB; [|discriminate].
+  apply andb_prop in H as [H S1]. apply andb_prop in H as [H ID]. apply andb_prop in H as [H CH]. apply andb_prop in H as [H XP].
+  apply andb_prop in H as [US SK]. apply strs_eqb_eq in US, SK.
+  assert (XP' : xprec d = []) by (destruct (xprec d); [reflexivity|discriminate]).
+  assert (T1 : Forall (istable T0) (prog_file d ks)) by (rewrite forallb_forall in S1; apply Forall_forall; intros it I; apply (item_ok_spec strict); apply S1; exact I).
+  destruct (write_fixpoint_binary d ks d' fs RA RB W WB US SK XP' CH ID T1 CHX IDX) as [d'' [fs' [d3 [fs'' R]]]].
+  exists RA, RB, d'', fs', d3, fs''. split; [reflexivity|exact R].
+Qed.
+Example example_tough2_bin_idem : idem_bin_hyps2 true (with_centres (drop_short example_tough2)) (no_mesh example_tough2_order) = true.
 Proof. vm_compute. reflexivity. Qed.
-Example example_autough2_bin_idem : idem_bin_hyps true (with_centres (drop_short example_autough2)) (no_mesh example_autough2_order) = true.
+Example example_autough2_bin_idem : idem_bin_hyps2 true (with_centres (drop_short example_autough2)) (no_mesh example_autough2_order) = true.
 Proof. vm_compute. reflexivity. Qed.
